@@ -8,10 +8,13 @@ git checkout -q -- . ; git clean -fdq -e out
 mv out /tmp/_out_$$ 
 git apply /tmp/_out_$$/mutant$N.diff || { mv /tmp/_out_$$ out; echo "CONFIRM $WT $N: patch does not apply"; exit 1; }
 SUITE=$(go test -vet=off -count=1 ./... 2>&1 | grep -v 'no test files' | grep -c -E '^(FAIL|---|panic)')
-cp /tmp/_out_$$/demo${N}_test.go ./zz_demo${N}_test.go
-DEMO_WITH=$(go test -vet=off -count=1 . 2>&1 | tail -1)
+PKGDIR=.
+grep -q '^package zhttp' /tmp/_out_$$/demo${N}_test.go && PKGDIR=./zhttp
+grep -q '^package zog_test' /tmp/_out_$$/demo${N}_test.go && PKGDIR=.
+cp /tmp/_out_$$/demo${N}_test.go $PKGDIR/zz_demo${N}_test.go
+DEMO_WITH=$(go test -vet=off -count=1 $PKGDIR 2>&1 | tail -1)
 git checkout -q -- . 
-DEMO_WITHOUT=$(go test -vet=off -count=1 . 2>&1 | tail -1)
-rm -f zz_demo${N}_test.go
+DEMO_WITHOUT=$(go test -vet=off -count=1 $PKGDIR 2>&1 | tail -1)
+rm -f $PKGDIR/zz_demo${N}_test.go
 mv /tmp/_out_$$ out
 echo "CONFIRM $WT $N: suite_failures=$SUITE demo_with=[$DEMO_WITH] demo_without=[$DEMO_WITHOUT]"
